@@ -220,4 +220,40 @@ def Scope.callNow (sc : Scope) (fn : String) (segs : List Seg) (buf : List UInt8
     | (sc1, some f) => (sc1, some f)
     | (sc1, none) => sc1.checkLast
 
+/-! ## the ignore-other-parameters class -/
+
+/-- the expectation list after a sequence of calls, if none of them reports a failure -/
+def afterCalls (es : List Exp) (k : Nat) : List Call → Option (List Exp)
+  | [] => some es
+  | c :: rest =>
+    match (callFull es (k + 1) c.name c.segs bufInit).fail with
+    | some _ => none
+    | none => afterCalls (callFull es (k + 1) c.name c.segs bufInit).es (k + 1) rest
+
+/-- same class: same function, object, flag, the same (required) parameter map and the same
+    (required) output parameters.  (`fits` already is the textbook reading for an expectation
+    with `ignoreOtherParameters`: every parameter it names occurs in the call with an equal
+    value — `covered` and `compat` —, parameters it does not name are accepted.) -/
+def sameClass (a b : Exp) : Bool :=
+  a.name == b.name && a.obj == b.obj && a.iop == b.iop &&
+  a.ins.all (fun p => b.ins.any (fun q => q.name == p.name && q.val == p.val)) &&
+  b.ins.all (fun p => a.ins.any (fun q => q.name == p.name && q.val == p.val)) &&
+  a.outs.all (fun p => b.hasOutputNamed p.name) && b.outs.all (fun p => a.hasOutputNamed p.name)
+
+/-- unambiguous in the wider sense: two expectations on one function are of the same class or
+    differ on a shared (required) parameter's value (or name different objects) -/
+def UnambiguousI (es : List Exp) : Prop :=
+  ∀ a ∈ es, ∀ b ∈ es, a.name = b.name → sameClass a b = true ∨ conflict a b = true
+
+def capLeftI (es : List Exp) (e : Exp) : Nat :=
+  ((es.filter (fun x => sameClass e x)).map (fun x => x.expected - x.actual)).sum
+
+/-- the calls can be assigned one-to-one to the expected units; for unambiguous sets a call
+    matches one class only, so this is a count per class -/
+def MultisetEqI (es : List Exp) (calls : List Call) : Prop :=
+  (∀ c ∈ calls, ∃ e ∈ es, fits e c = true) ∧ (∀ e ∈ es, demand calls e = capLeftI es e)
+
+instance (es : List Exp) : Decidable (UnambiguousI es) := by unfold UnambiguousI; infer_instance
+instance (es : List Exp) (calls : List Call) : Decidable (MultisetEqI es calls) := by unfold MultisetEqI; infer_instance
+
 end Mock
